@@ -194,6 +194,17 @@ def run(prop, tier, replay=None):
     gossip_cov = {}
     if prop == "C03" and not replay:
         gossip_cov = run_gossip(work, tier, seed, verdict)
+    if prop == "C13":
+        # A panic is a violation whatever the specification thinks of the lines before it: a trace that TLC stopped
+        # following after an earlier (non-panic) rejection may still contain one.
+        seen = {(rj["t"], rj["n"]) for rj in rejs}
+        lseen = {(rj["t"], rj["n"]) for rj in lrejs}
+        for mode, src, done, scs in (("", lines, seen, scenarios), ("runloop/", llines, lseen, loop_scs)):
+            for ln in src:
+                if "panic" in ln.get("s", {}) and (ln["t"], ln["n"]) not in done:
+                    sc = scs[ln["t"] - 1] if 0 < ln["t"] <= len(scs) else None
+                    verdict.add(mode + fp.signature({}, ln, {"panic"}), {"line": ln, "why": "panic after a line the specification had already rejected",
+                                                                       "scenario": sc, "mode": mode or "direct"})
     lbyn = {(ln["t"], ln["n"]): ln for ln in llines}
     for rj in lrejs:
         ln = lbyn.get((rj["t"], rj["n"]), {"ev": rj.get("ev"), "a": {}, "s": {}})
